@@ -13,38 +13,57 @@ import (
 	"verif/gram"
 )
 
-// selectSyn picks the layer-B selection: smallest grammars with pairwise distinct emitted tables per family.
+// selectSyn picks the layer-B selection: per family a quota of the budget, within a family the smallest grammars
+// with pairwise distinct emitted tables (S1, being large, is also spread over its size range).
 func selectSyn(cands []*synRec, out func(*synRec) *GenOut, budget int) []*synRec {
-	sorted := append([]*synRec(nil), cands...)
-	sort.SliceStable(sorted, func(i, j int) bool {
-		if sorted[i].Fam != sorted[j].Fam {
-			return sorted[i].Fam > sorted[j].Fam // seeds (S2) first
+	quota := map[string]float64{"S2": 0.40, "S4": 0.15, "S3": 0.10, "P": 0.10, "S1": 0.25}
+	byFam := map[string][]*synRec{}
+	var fams []string
+	for _, r := range cands {
+		if _, ok := byFam[r.Fam]; !ok {
+			fams = append(fams, r.Fam)
 		}
-		return len(sorted[i].Text) < len(sorted[j].Text)
-	})
+		byFam[r.Fam] = append(byFam[r.Fam], r)
+	}
+	sort.Strings(fams)
 	seen := map[string]bool{}
 	var sel []*synRec
-	stride := 1
-	if len(sorted) > 6*budget {
-		stride = len(sorted) / (3 * budget)
-	}
-	for i, rec := range sorted {
-		if len(sel) >= budget {
-			break
+	left := budget
+	for fi, fam := range fams {
+		q := int(quota[fam]*float64(budget) + 0.5)
+		if q == 0 {
+			q = budget / 10
 		}
-		if rec.Fam == "S1" && i > budget/2 && i%stride != 0 {
-			continue
+		if fi == len(fams)-1 || q > left {
+			q = left
 		}
-		o := out(rec)
-		if o == nil || o.Par == nil {
-			continue
+		sorted := append([]*synRec(nil), byFam[fam]...)
+		sort.SliceStable(sorted, func(i, j int) bool { return len(sorted[i].Text) < len(sorted[j].Text) })
+		stride := 1
+		if len(sorted) > 6*q && q > 0 {
+			stride = len(sorted) / (3 * q)
 		}
-		b, _ := json.Marshal(o.Par)
-		if seen[string(b)] {
-			continue
+		n := 0
+		for i, rec := range sorted {
+			if n >= q {
+				break
+			}
+			if i > q/2 && i%stride != 0 {
+				continue
+			}
+			o := out(rec)
+			if o == nil || o.Par == nil {
+				continue
+			}
+			b, _ := json.Marshal(o.Par)
+			if seen[string(b)] {
+				continue
+			}
+			seen[string(b)] = true
+			sel = append(sel, rec)
+			n++
 		}
-		seen[string(b)] = true
-		sel = append(sel, rec)
+		left -= n
 	}
 	return sel
 }
